@@ -38,7 +38,13 @@ for sid in sorted(os.listdir(BASE)):
     else:
         m["status"] = "kept"
     m["checks_run_against_it"] = matrix.get(sid, [])
-    det = [c["check"] for c in matrix.get(sid, []) if "exit=1" in c["result"] and "violations=0" not in c["result"]]
+    det = sorted({c["check"] for c in matrix.get(sid, []) if "exit=1" in c["result"] and "violations=0" not in c["result"]})
+    seen_rows, rows = set(), []
+    for c in matrix.get(sid, []):
+        if (c["check"], c["result"]) not in seen_rows:
+            seen_rows.add((c["check"], c["result"]))
+            rows.append(c)
+    m["checks_run_against_it"] = rows
     m["detected_by"] = det
     json.dump(m, open(mp, "w"), indent=1)
     print(sid, m["status"][:20], det)
